@@ -25,6 +25,16 @@ const SHAPES = {
   spreadBefore: { args: (s) => `${s}, { ...uAll, inheritAttrs: false }`, user: ['props', 'emits', 'name'] },
   spreadOnly: { args: (s) => `${s}, { ...uAll }`, user: ['props', 'emits', 'name'] },
   spreadPartial: { args: (s) => `${s}, { ...uName }`, user: ['name'] },
+  // explicit keys next to a spread: the derived keys must still come before every spread
+  spreadThenProps: { args: (s) => `${s}, { ...uAll, props: uProps }`, user: ['props', 'emits', 'name'] },
+  spreadThenPropsQuoted: { args: (s) => `${s}, { ...uAll, 'props': uProps, inheritAttrs: false }`, user: ['props', 'emits', 'name'] },
+  spreadThenEmits: { args: (s) => `${s}, { ...uAll, emits: uEmits }`, user: ['props', 'emits', 'name'] },
+  spreadThenName: { args: (s) => `${s}, { ...uAll, name: 'Own' }`, user: ['props', 'emits', 'name'] },
+  propsThenSpread: { args: (s) => `${s}, { props: uProps, ...uAll }`, user: ['props', 'emits', 'name'] },
+  emitsThenSpread: { args: (s) => `${s}, { emits: uEmits, inheritAttrs: false, ...uAll }`, user: ['props', 'emits', 'name'] },
+  spreadPartialThenProps: { args: (s) => `${s}, { ...uName, props: uProps }`, user: ['name', 'props'] },
+  twoSpreads: { args: (s) => `${s}, { ...uName, inheritAttrs: false, ...uAll }`, user: ['props', 'emits', 'name'] },
+  nameSpreadProps: { args: (s) => `${s}, { name: 'Own', ...uAll, ['props']: uProps }`, user: ['props', 'emits', 'name'] },
   identOpts: { args: (s) => `${s}, uAll`, user: ['props', 'emits', 'name'] },
   identOptsPartial: { args: (s) => `${s}, uName`, user: ['name'] },
   callOpts: { args: (s) => `${s}, mkOpts()`, user: ['props', 'emits', 'name'] },
